@@ -355,6 +355,9 @@ def execute(prop, case, rec):
             res.fail('raise:%s@%s:%s' % (type(e).__name__,
                                          os.path.basename(f.filename), f.name),
                      'library raised %s: %s' % (type(e).__name__, str(e)[:300]))
+        elif isinstance(e, RuntimeError) and 'Backward' in str(e) and 'invalid gradient' in str(e):
+            # raised by the autograd engine about a hand-written backward of the library
+            res.fail('raise:RuntimeError@autograd:invalid_gradient', 'library backward returned an invalid gradient: %s' % str(e)[:300])
         elif any(('site-packages/pywt' in f.filename or 'site-packages/dtcwt' in f.filename) for f in tb):
             # the reference itself rejects this input (the library did not): oracle undefined, case discarded
             res.skip('oracle undefined: %s: %s' % (type(e).__name__, str(e)[:200]))
